@@ -6,9 +6,9 @@ package main
 // applied to two sources (C12).
 
 import (
-	"os"
 	"fmt"
 	"math/rand"
+	"os"
 	"strconv"
 	"strings"
 	"sync"
